@@ -129,6 +129,8 @@ pub struct Grammar {
     pub entries: Vec<RuleEntry>,
     /// (rule hint or "*junk", text)
     pub seeds: Vec<(String, String)>,
+    /// the grammar's own string literals
+    pub literals: &'static [&'static str],
 }
 
 pub fn parse_seeds(s: &str) -> Vec<(String, String)> {
